@@ -1748,6 +1748,15 @@ func c11SubdirRemap(c *Ctx, pk *packages.Package) {
 				if _, isParam := v.(*ssa.Parameter); !isParam {
 					// a remapped list: must come from a call whose callback joins onto the sub-directory
 					if dependsOnCall(v, func(cc *ssa.CallCommon) bool {
+						// joined in place (a loop appending normalpath.Join(subdir, p)) ...
+						if calleeIs(staticCalleeObj(cc), "private/pkg/normalpath", "Join") {
+							for _, a := range cc.Args {
+								if isSubdir(a) {
+									return true
+								}
+							}
+						}
+						// ... or by a mapping callback that captures the sub-directory
 						for _, a := range cc.Args {
 							if mc, ok := a.(*ssa.MakeClosure); ok {
 								for _, b := range mc.Bindings {
